@@ -128,7 +128,7 @@ func genCalculateBackoff(p *pkgInfo) string {
 		panic("CalculateBackoff: unexpected signature")
 	}
 	d := &boDialect{cfg: ps[0].Names[0].Name, attempt: ps[1].Names[0].Name}
-	c := &compiler{fset: p.fset, d: d, types: map[string]string{d.attempt: "Z"}}
+	c := &compiler{fset: p.fset, d: d, types: map[string]string{d.attempt: "Z"}, funcs: p.funcs, pkgConsts: p.consts, pkgVars: p.vars}
 	for f, t := range boFields {
 		c.types[d.cfg+"."+f] = t
 	}
@@ -351,7 +351,14 @@ func (d *cbDialect) ret(c *compiler, results []ast.Expr) string {
 		}
 	case *ast.CallExpr:
 		if callName(r) == "fmt.Errorf" && len(r.Args) == 1 {
-			if bl, ok := r.Args[0].(*ast.BasicLit); ok {
+			arg := r.Args[0]
+			// the message may be a named package constant
+			if id, ok := arg.(*ast.Ident); ok {
+				if v, ok := c.pkgConsts[id.Name]; ok {
+					arg = v
+				}
+			}
+			if bl, ok := arg.(*ast.BasicLit); ok {
 				s, _ := strconv.Unquote(bl.Value)
 				if s == "circuit breaker is open" {
 					return "(CRRejected, " + st + ")"
@@ -383,7 +390,7 @@ func genBreaker(p *pkgInfo) string {
 		"cb_failureThreshold": "Z", "cb_cooldownPeriod": "Z", "cb_failures": "Z", "cb_lastFailureTime": "Z", "cb_state": "cbstate",
 		recv + ".failureThreshold": "Z", recv + ".cooldownPeriod": "Z", recv + ".failures": "Z", recv + ".lastFailureTime": "Z",
 		"call:time.Since": "Z", "call:time.Now": "Z",
-	}}
+	}, pkgConsts: p.consts}
 	var out []ast.Stmt
 	sawFn := false
 	var rewrite func(list []ast.Stmt) []ast.Stmt
@@ -396,6 +403,16 @@ func genBreaker(p *pkgInfo) string {
 					n := callName(call)
 					if n == recv+".mu.Lock" {
 						continue
+					}
+					// cb.helper(): a method of the breaker without parameters and results, called with the lock held
+					// (a block of Call extracted by a refactoring): its statements, in place
+					if strings.HasPrefix(n, recv+".") && len(call.Args) == 0 {
+						if h, ok := p.funcs["CircuitBreaker."+strings.TrimPrefix(n, recv+".")]; ok && h.Body != nil &&
+							h.Type.Results == nil && (h.Type.Params == nil || len(h.Type.Params.List) == 0) &&
+							len(h.Recv.List[0].Names) == 1 && h.Recv.List[0].Names[0].Name == recv && !containsReturn(h.Body.List) {
+							res = append(res, rewrite(h.Body.List)...)
+							continue
+						}
 					}
 				}
 				c.fail(s, "unsupported expression statement in CircuitBreaker.Call")
